@@ -886,6 +886,12 @@ def enumerate_chains(ctx):
     for a1, a2 in itertools.product(ADAPTERS, repeat=2):
         for c in trio:
             chains.append(Chain([a1, a2], c))
+    # direction bookkeeping: every triple with a `rev` and a direction-sensitive adapter (zip, flat_map, flatten pull a second
+    # iterator in the current direction), in every order
+    dsens = {"zip", "flat_map", "flatten"}
+    for tr in itertools.product(ADAPTERS + FLATS, repeat=3):
+        if tr.count("rev") == 1 and dsens & set(tr):
+            chains.append(Chain(list(tr), "for_each"))
     # the for_each! macro (its own entry point into the same machinery)
     chains.append(Chain([], "for_each!"))
     for a1 in ADAPTERS + FLATS:
